@@ -589,6 +589,7 @@ class Arr:
         self.stats['cases'].append({'n': len(ws), 'used': sum(1 for w in ws if w), 'plan': parg, 'older': older, 'test': test, 'selected': len(msel_set),
                                     'distinct_times': len(set(w & ~7 for w in ws if w)), 'bad': sum(1 for w in ws if w & 1),
                                     'limits': tags, 'outcomes': sorted(set(outcome_kinds.values())), 'tag': tag,
+                                    'bad_at_tie': bool(mkind == 'auto' and mll and any((w & 1) and (w & ~7) == mtl for w in ws)),
                                     'tie_cut': bool(mkind == 'auto' and mll and mll < sum(1 for w in ws if w and not (w & 1) and (w & ~7) == mtl))})
         return outcome_kinds
 
@@ -846,6 +847,14 @@ def scenario_ties(a, rounds, viol):
     n = rng.randrange(8, 25)
     a.add_files([(d, 1) for _ in range(n) for d in a.disks])
     a.sync()
+    # bad stripes AT the tie time: every stripe has the time of the sync; the first two ties are damaged and scrubbed
+    # (bad mark, time kept), repaired by hand, then a percentage plan whose tie time is that time: the bad ones are
+    # selected without consuming the tie count (C15_auto_total_bound: share + bad stripes)
+    a.corrupt_data(a.disks[0], 0)
+    a.corrupt_data(a.disks[1 % a.ndisk], 1)
+    a.scrub((200 + n - 1) // n, 0, dt=rng.choice([8, 9, DAY]), tag='bad_at_tie')
+    a.heal()
+    a.scrub(rng.choice([30, 25, (300 + n - 1) // n]), 0, dt=rng.choice([9, 16, DAY]), tag='bad_at_tie')
     for rd in range(rounds):
         m = rng.randrange(1, 5)
         groups = [rng.randrange(0, m + 1) for _ in range(n)]
@@ -1490,7 +1499,9 @@ def main(tier, replay=None):
         'scrubs_with_autosave': sum(s['autosave_scrubs'] for s in stats_all),
         'changed_file_stamp_grid (recorded nsec is 0, same second, new nsec)': sorted(set(x for s in stats_all for x in s['stamp_grid'])),
         'plans_run': plans, 'stripe_outcomes_on_binary': outc,
-        'tie_cut_cases': sum(1 for c in cases if c['tie_cut']), 'cases_with_bad_marks': sum(1 for c in cases if c['bad']),
+        'tie_cut_cases': sum(1 for c in cases if c['tie_cut']),
+        'cases_with_bad_stripes_at_the_tie_time': sum(1 for c in cases if c['bad_at_tie']),
+        'cases_selecting_more_than_count_limit': sum(1 for c in cases if c['limits'] and c['selected'] > c['limits'].get('count_limit', 0)), 'cases_with_bad_marks': sum(1 for c in cases if c['bad']),
         'stripes_selected_total': sum(s['selected_total'] for s in stats_all),
         'array_sizes': sorted(set(c['n'] for c in cases))[:40],
         'corpus_plan_cases': len(corpus_lines), 'corpus_scenarios': len(corpus_specs),
